@@ -3,6 +3,7 @@
 package srvx
 
 import (
+	"bytes"
 	"context"
 	"errors"
 	"fmt"
@@ -277,4 +278,56 @@ func Drain(conn net.Conn, d time.Duration) []byte {
 			return out
 		}
 	}
+}
+
+// CheckAssembler wraps a PacketAssembler (the way an application plugs in its own through Server.AssemblerCreatorFunc)
+// and checks what the server hands to it: bytesRead equals len(received), the context is alive, and - through the
+// optional RawReadTracer interface - every traced read has n == len(data) and is the data handed to ReceiveRead next.
+type CheckAssembler struct {
+	Inner server.PacketAssembler
+	mu    sync.Mutex
+	last  []byte
+	Bad   []string
+}
+
+func (a *CheckAssembler) note(s string) {
+	a.mu.Lock()
+	if len(a.Bad) < 5 {
+		a.Bad = append(a.Bad, s)
+	}
+	a.mu.Unlock()
+}
+
+// Problems returns what was recorded.
+func (a *CheckAssembler) Problems() []string {
+	a.mu.Lock()
+	defer a.mu.Unlock()
+	return append([]string(nil), a.Bad...)
+}
+
+// Read implements server.RawReadTracer.
+func (a *CheckAssembler) Read(data []byte, n int, err error) {
+	if n != len(data) {
+		a.note(fmt.Sprintf("raw-read trace: n=%d but %d bytes handed over", n, len(data)))
+	}
+	a.mu.Lock()
+	a.last = append(a.last[:0], data...)
+	a.mu.Unlock()
+}
+
+// ReceiveRead implements server.PacketAssembler.
+func (a *CheckAssembler) ReceiveRead(ctx context.Context, received []byte, bytesRead int) ([]byte, bool) {
+	if bytesRead != len(received) {
+		a.note(fmt.Sprintf("ReceiveRead: bytesRead=%d but len(received)=%d (cap %d)", bytesRead, len(received), cap(received)))
+	}
+	if ctx.Err() != nil {
+		a.note("ReceiveRead: context already ended: " + ctx.Err().Error())
+	}
+	a.mu.Lock()
+	same := bytes.Equal(a.last, received)
+	a.mu.Unlock()
+	if !same {
+		a.note(fmt.Sprintf("ReceiveRead got % x, the read traced just before was % x", received, a.last))
+	}
+	return a.Inner.ReceiveRead(ctx, received, bytesRead)
 }
